@@ -9,7 +9,9 @@
                  iterate must reproduce the next one, the exact objective must not increase.
    * LSBlock   : design matrix / right-hand sides / solution captured at a least-squares block (tensor ring ALS,
                  regressors, CMTF): normal equations hold for the implementation's solution, objective not above
-                 the objective of the previous iterate. *)
+                 the objective of the previous iterate.
+   * Norm      : cp_normalize on states of normalize_factors runs (and states with an all-zero column): model == implementation,
+                 squared error exactly unchanged by the model's normalisation. *)
 From Coq Require Import List Arith ZArith QArith Qabs Bool.
 From TLV Require Import Base.Shape Base.PyList Base.Tensor Base.Ops Model.Descent Corr.Common.
 Import ListNotations.
@@ -94,9 +96,34 @@ Definition ls_agree (c : lscase) : bool :=
    let ny := gsum Qops (ls_p c) (fun cc => gsum Qops (ls_m c) (fun i => Qred (mget Qops Y i cc * mget Qops Y i cc))) in
    qle after (before + tol_obj * (before + ny))).
 
-Inductive body := CPBlock (c : cpcase) | Hals (c : halscase) | LSBlock (c : lscase).
+(* cp_normalize (cp_tensor.py) on a state of a normalize_factors run: the column norms are an answer tape (sqrt is an oracle),
+   per mode (scales, scales_non_zero); the model's normalised state must be the implementation's, and - the instance of
+   C07_cp_normalize_invariant - the model's squared error is EXACTLY unchanged, the implementation's up to rounding *)
+Record normcase := mkN {
+  n_X : tensor Q; n_w : list Q; n_facs : list qmat; n_rank : nat;
+  n_tape : list (list Q * list Q); n_wimpl : list Q; n_facsimpl : list qmat }.
+Fixpoint mats_close (atol rtol : Q) (a b : list qmat) : bool :=
+  match a, b with
+  | [], [] => true
+  | x :: a', y :: b' => mat_close atol rtol x y && mats_close atol rtol a' b'
+  | _, _ => false
+  end.
+Definition norm_agree (c : normcase) : bool :=
+  let s := shape (n_X c) in
+  let norms := fun (k : nat) (_ : @cpstate Q) => nth k (n_tape c) ([], []) in
+  let st' := cp_normalize_m Qops s (n_rank c) norms (n_w c, n_facs c) in
+  let before := cp_sqerr Qops (n_X c) (n_w c) (n_facs c) (n_rank c) in
+  let after_model := cp_sqerr Qops (n_X c) (fst st') (snd st') (n_rank c) in
+  let after_impl := cp_sqerr Qops (n_X c) (n_wimpl c) (n_facsimpl c) (n_rank c) in
+  let normX2 := gsum Qops (prod s) (fun o => Qred (nth o (data (n_X c)) 0 * nth o (data (n_X c)) 0)) in
+  q_list_close (1 # 1000000000000) tol_match (fst st') (n_wimpl c) &&
+  mats_close (1 # 1000000000000) tol_match (snd st') (n_facsimpl c) &&
+  Qeq_bool after_model before &&
+  qle (Qabs (after_impl - before)) (tol_obj * (before + normX2)).
+
+Inductive body := CPBlock (c : cpcase) | Hals (c : halscase) | LSBlock (c : lscase) | Norm (c : normcase).
 Definition case := (nat * body)%type.
 Definition agree (c : case) : bool :=
-  match snd c with CPBlock b => cp_agree b | Hals b => hals_agree b | LSBlock b => ls_agree b end.
+  match snd c with CPBlock b => cp_agree b | Hals b => hals_agree b | LSBlock b => ls_agree b | Norm b => norm_agree b end.
 Definition ident (c : case) : nat := fst c.
 Definition failing := failing_ids agree ident.
